@@ -1,6 +1,6 @@
 (* Props/C20.v — failures of the external tool never turn into acceptance.
    The tool is arbitrary: every theorem quantifies over all [tool_result]s. *)
-From PV Require Import Lib.Base Model.Sigver Proofs.Sigver_lemmas.
+From PV Require Import Lib.Base Model.Sigver Proofs.Sigver_lemmas Model.MdStoreLoad Proofs.MdStoreLoad_lemmas.
 Open Scope N_scope.
 
 (* success is recognised only by a LINE that is exactly OK, with neither OK nor
@@ -111,3 +111,70 @@ Proof.
   - vm_compute. repeat split; reflexivity.
 Qed.
 Print Assumptions C20_fault_catalogue.
+
+(* ---------- what a FAILED load leaves behind (Model/MdStoreLoad.v) ----------
+   store = dict key -> source; load = (parse into a new source; verify; register);
+   the application catches the exception and keeps using the store. *)
+
+(* one operation: a load that raises leaves the store exactly as it was; a load
+   that has to verify and whose tool run does not report success does raise *)
+Theorem C20_failed_load_unchanged :
+  (forall o s e, snd (load o s) = Err e -> fst (load o s) = s) /\
+  (forall o s, op_must_verify o = true -> reports_success (op_tool o) = false -> exists e, load o s = (s, Err e)).
+Proof. split; [exact load_failed_unchanged | exact load_unverified]. Qed.
+Print Assumptions C20_failed_load_unchanged.
+
+(* every history (induction over the operation list): the failed operations are
+   invisible - the final store is the one the successful operations alone
+   produce; a failed operation anywhere in a history leaves no trace; a history
+   of failures only is the identity *)
+Theorem C20_history_failed_loads_invisible :
+  (forall ops s, run_history ops s = run_history (filter op_succeeds ops) s) /\
+  (forall ops1 o ops2 s, op_must_verify o = true -> reports_success (op_tool o) = false ->
+     run_history (ops1 ++ o :: ops2) s = run_history (ops1 ++ ops2) s) /\
+  (forall ops s, (forall o, In o ops -> op_must_verify o = true /\ reports_success (op_tool o) = false) ->
+     run_history ops s = s).
+Proof.
+  split; [exact run_history_filter|]. split; [exact run_history_failed_in_the_middle | exact run_history_all_failed].
+Qed.
+Print Assumptions C20_history_failed_loads_invisible.
+
+(* nothing from a document that could not be verified: a (key, document) the
+   store holds after any history was there before, or was registered by an
+   operation that did not have to verify (no certificate configured / unsigned
+   document) or whose tool run reported success *)
+Theorem C20_history_provenance :
+  forall ops s k d, In (k, d) (run_history ops s) ->
+    In (k, d) s \/
+    exists o, In o ops /\ op_key o = k /\ op_doc o = d /\
+              (op_must_verify o = false \/ reports_success (op_tool o) = true).
+Proof.
+  intros ops s k d H. apply run_history_provenance in H as [H|(o & Hin & Hk & Hd & Hs)]; [now left|].
+  right. exists o. repeat split; try assumption.
+  destruct (op_must_verify o) eqn:Hm; [right; now apply op_succeeds_verified|now left].
+Qed.
+Print Assumptions C20_history_provenance.
+
+(* a store that registers before it verifies (NOT the library; the hidden change
+   the history units look for) violates both: the failed load replaces the
+   verified source under the same key, and leaves a new one under a new key *)
+Theorem C20_register_before_verify_refuted :
+  exists o1 o2 s,
+    op_must_verify o1 = true /\ reports_success (op_tool o1) = false /\
+    snd (load_register_first o1 s) <> Ok tt /\ fst (load_register_first o1 s) <> s /\ fst (load o1 s) = s /\
+    op_must_verify o2 = true /\ reports_success (op_tool o2) = false /\
+    run_history_register_first [o1; o2] s = [(1, 3); (2, 3)] /\ run_history [o1; o2] s = s.
+Proof.
+  exists (1, 3, true, true, mk true [] [] false []), (2, 3, true, true, NotStartable), [(1, 1)].
+  vm_compute. repeat split; discriminate.
+Qed.
+Print Assumptions C20_register_before_verify_refuted.
+
+Example C20_history_example :
+  run_history [ (1, 1, true, true, mk false [] (s2l "OK") false []);      (* verified load of document 1 under key 1 *)
+                (1, 3, true, true, mk false [] (s2l "FAIL") false []);    (* refresh with document 3: bad signature *)
+                (2, 3, true, true, mk true [] (s2l "OK") false []);       (* new key, tool killed by a signal *)
+                (1, 2, true, true, mk false [] (s2l "OK") false []) ] []  (* verified refresh *)
+  = [(1, 2)].
+Proof. vm_compute. reflexivity. Qed.
+Print Assumptions C20_history_example.
